@@ -26,6 +26,8 @@ pub(crate) mod verif_kani_secret {
         n: usize,
         overflow: bool,
         calls: usize,
+        /// what `Serializer::is_human_readable` answers (symbolic in the harnesses: the property quantifies over formats)
+        human: bool,
     }
 
     impl Sink {
@@ -35,6 +37,7 @@ pub(crate) mod verif_kani_secret {
                 n: 0,
                 overflow: false,
                 calls: 0,
+                human: true,
             }
         }
 
@@ -149,6 +152,9 @@ pub(crate) mod verif_kani_secret {
         type SerializeStruct = No;
         type SerializeStructVariant = No;
 
+        fn is_human_readable(&self) -> bool {
+            self.human
+        }
         fn serialize_str(self, v: &str) -> Result<(), RecErr> {
             self.put(v.as_bytes());
             Ok(())
@@ -273,8 +279,9 @@ pub(crate) mod verif_kani_secret {
         o
     }
 
-    fn emit_serialize_key(k: &SecretKey) -> Sink {
+    fn emit_serialize_key(k: &SecretKey, human: bool) -> Sink {
         let mut o = Sink::new();
+        o.human = human;
         let r = k.serialize(&mut o);
         assert!(r.is_ok());
         forget(r);
@@ -372,8 +379,9 @@ pub(crate) mod verif_kani_secret {
         assume_printable(&s2);
         let k1 = SecretKey::from(text(&s1));
         let k2 = SecretKey::from(text(&s2));
-        let o1 = emit_serialize_key(&k1);
-        let o2 = emit_serialize_key(&k2);
+        let human: bool = kani::any(); // the same format for both runs, human-readable or binary
+        let o1 = emit_serialize_key(&k1, human);
+        let o2 = emit_serialize_key(&k2, human);
         assert!(o1.calls == 1 && o2.calls == 1, "exactly one payload is handed to the serializer");
         assert!(same_output(&o1, &o2), "Serialize of SecretKey depends on the secret");
         kani::cover!(true);
@@ -393,7 +401,7 @@ pub(crate) mod verif_kani_secret {
         assert!(!shares_a_byte(&o, &s), "Debug of SecretKey shows a byte of the secret");
         let o = emit_debug_cred(&c);
         assert!(!shares_a_byte(&o, &s), "Debug of Credentials shows a byte of the secret");
-        let o = emit_serialize_key(&c.secret_key);
+        let o = emit_serialize_key(&c.secret_key, kani::any());
         assert!(!shares_a_byte(&o, &s), "Serialize of SecretKey shows a byte of the secret");
         kani::cover!(true);
         forget(c);
